@@ -567,7 +567,7 @@ def runProg (w : World Feature) (s : MSeq) : List Op → List MSeq × World Feat
 end ops
 
 
-/-! ### `asComplete` (location.go:346-364) — the one function that writes through a location
+/-! ### `asComplete` (location.go:346-367) — the one function that writes through a location
 
 `Joined`/`Ordered` are slices of `Location` interface values.  `asComplete` stores into the slice
 it is given (`v[i] = asComplete(u)`) and returns that same slice: it IS impure.  It has exactly
@@ -602,7 +602,7 @@ def asCompleteMem : Nat → Heap MLoc → MLoc → MLoc × Heap MLoc
     | .leaf l => (.leaf l.asComplete, h)
     | .joined s => (.joined s, acLoop (asCompleteMem fuel) s s.len 0 h)
     | .ordered s => (.ordered s, acLoop (asCompleteMem fuel) s s.len 0 h)
-    | .compl m => (.compl m, h)
+    | .compl m => let r := asCompleteMem fuel h m; (.compl r.1, r.2)  -- since repair e43d5f2 (F37)
 
 /-- read a location value out of memory -/
 def readLoc : Nat → Heap MLoc → MLoc → Loc
